@@ -11,7 +11,7 @@ EXPLANATION = (
     "their renamed form — in the sync path the queueing is guarded by skip_rename == false and skip_rename depends on the "
     "stream's operations (a `.process()` stream's outputs are themselves outputs)."
 )
-DECIDED = ["each entry point reaches each operator kernel or none does", "chain depth limits agree", "un-renamed outputs are never queued for routing"]
+DECIDED = ["each entry point reaches each operator kernel or none does", "chain depth limits agree", "un-renamed outputs are never queued for routing", "all entry points decide the forwarding of a .process() stream's outputs from the current result's own emissions"]
 NOT_DECIDED = ["equality of outputs inside the shared kernels", "order of outputs across batch boundaries"]
 
 E = "varpulis_runtime::engine::Engine::"
@@ -158,7 +158,62 @@ def run_merge_gate(ctx):
     ctx.sample({"merge_gate": {k: v[0] for k, v in got.items()}})
 
 
+SPR = "varpulis_runtime::engine::types::StreamProcessResult"
+
+
+def run_process_outputs(ctx):
+    """sibling agreement on WHEN a `.process()` stream's output_events are themselves sent to the output channel: in every entry
+    point the decision is `<this result emitted nothing> && <the stream has a Process op>` — the emptiness test must be on the
+    CURRENT result's emitted_events. A test on a batch-wide accumulator (filled by earlier streams / events of the same call)
+    drops the outputs of every `.process()` stream that comes after the first emission of the batch, on that path only."""
+    F = ctx.facts()
+    n = 0
+    for e in ENTRIES:
+        name = e.rsplit("::", 1)[1]
+        found = []
+        for p in F.bodies_of(e):
+            h = F.hir(p)
+            if not h:
+                continue
+            lets = {s_["pat"]["name"]: s_["init"] for s_ in H.lets(h["body"]) if s_["pat"]["k"] == "bind" and s_.get("init") is not None}
+
+            def has_process(x):
+                return any(m.get("k") == "match" and any("RuntimeOp::Process" in H.pat_str(a["pat"]) for a in m["arms"]) for m in H.walk(x))
+
+            def emptiness_receivers(x, depth=0):
+                out = []
+                for y in H.walk(x):
+                    if y.get("k") == "mcall" and y["method"] == "is_empty":
+                        out.append(H.show(y["recv"]))
+                    elif y.get("k") == "path" and depth < 2:
+                        nm = H.local_name(y)
+                        if nm in lets and not has_process(lets[nm]):
+                            out += emptiness_receivers(lets[nm], depth + 1)
+                return out
+            for x in H.walk(h["body"]):
+                if x.get("k") == "bin" and x["op"] == "And":
+                    l_p, r_p = has_process(x["l"]), has_process(x["r"])
+                    if l_p != r_p:
+                        other = x["r"] if l_p else x["l"]
+                        recv = emptiness_receivers(other)
+                        if recv:
+                            found.append((recv, x["sp"]))
+        if not found:
+            ctx.anchor_lost("process-outputs", "%s: the `emitted nothing && has a Process op` decision was not found" % name)
+            continue
+        for recv, sp in found:
+            n += 1
+            key = "%s:own-result" % name
+            if all("emitted_events" in r for r in recv):
+                ctx.ok("process-outputs", key, "decided by %s.is_empty()" % recv[0], site=sp)
+            else:
+                ctx.violation("process-outputs", key, "%s decides whether a `.process()` stream's outputs are sent to the output channel from `%s.is_empty()`, not from the current result's emitted_events: with a batch-wide accumulator the outputs of every such stream after the batch's first emission are dropped on this path, while the other entry points send them" % (
+                    name, [r for r in recv if "emitted_events" not in r][0]), site=sp)
+    ctx.floor("process-outputs", "`emitted nothing && Process op` decisions", n, 4)
+
+
 def run(ctx):
+    ctx.guard("process-outputs", lambda: run_process_outputs(ctx))
     ctx.guard("merge-gate", lambda: run_merge_gate(ctx))
     ctx.guard("entry-reach", lambda: run_reach(ctx))
     ctx.guard("chain-depth", lambda: run_consts(ctx))
